@@ -50,6 +50,11 @@ def jobs(tier, seed):
         add(d, routes=["rev_all", "diff_at_all"])
         add(d, pre=[["eval", "root", "q"]])
         add(d, pre=[["rev", "root", "q"]], var="x")
+    # one long-lived Differential located at another point first (a table keyed by hash(point) is explored on its colliding path)
+    for d in extra[:5]:
+        if len(rt.variables_of(d)) == 2:
+            add(d, routes=["diff_at_all"], reuse_seq=[["obj", "q"]])
+            add(d, routes=["diff_at_early_all"], reuse_seq=[["obj", "q"], ["expr", "eval", "q"]])
     add(["Exponential", fam.A(1), ["sym", "b"]], assume=[["gt", "b", 0]])
     add(["Logarithm", fam.A(1), ["sym", "b"]], assume=[["gt", "b", 0], ["ne", "b", 1]])
     add(["Multiply", fam.C(1), fam.A(1), fam.C(2)])
@@ -102,7 +107,7 @@ def vcs(spec, ctx, outs):
                     res.append(VC(f"component==true-partial[{rname}]:ground", None, None, {"failed": not g, "var": w}))
                     continue
                 res.append(VC(f"component==true-partial[{rname}]", z3.And(ctx.indom, t != ref),
-                              _judge(ctx, idx, pos, ref, t), {"var": w}))
+                              _judge(ctx, idx, pos, ref, t), {"var": w, "candidates": common.HASH_COLLISION_POINTS if spec.get("reuse_seq") else []}))
         elif common.strange(out):
             res.append(common.kind_vc(f"no-foreign-outcome-on-domain[{rname}]", ctx, out, z3.Not(ctx.indom), idx))
     return res
